@@ -20,12 +20,14 @@ func runC02(r *engine.Run) {
 	r.Rule("DEP-canon", "every arm that clears a child slot or the value of a branch node and re-inserts it reads the branch's child count and value presence (GetNumChildren/HasValue): an arm that never looks at the child count after removing the value cannot collapse a one-child branch, so the shape (and the root) depends on history")
 	r.Rule("AGREE-split", "a leaf's (Prefix, Path) pair splits one key: wherever a leaf is created or re-homed, Prefix = concat(B, S[:k]) goes with Path = S[k:] of the same slice S and the same split point k, with B the operation's prefix argument (or the existing leaf's own Prefix with S its own Path); a leaf that replaces the current node gets exactly the operation's prefix. The prefix is part of the leaf's hash, so a wrong prefix makes the root depend on history")
 	r.Rule("DOM-ext-nonempty", "see C01: an extension node with an empty path is never constructed (also a canonical-form condition)")
+	r.Rule("DEP-extchild", "every key installed as the child of an extension node (NewExtensionNode / insertExtension argument, store to NodeKey) is provably the key of a branch: returned by insertNode for a *FullNode, the child key of an existing extension, the result of insert started at an extension's child (with: the *FullNode arms of insertAtNode/insertAfterPathTraversal return insertNode of a *FullNode), or the key of a node type-tested to be a *FullNode on every path to the site. An extension over an extension or a leaf is a second encoding of the same content")
 	r.NotDec = append(r.NotDec, "equality with an independent implementation for every content", "full history independence (canonical restructuring is value-level)", "collision resistance of the hash")
 	agreeHash(r, "AGREE-hash")
 	orderStamp(r, "ORDER-stamp")
 	depCanon(r)
 	agreeSplit(r)
 	domExtNonEmpty(r, "DOM-ext-nonempty")
+	depExtChild(r, "DEP-extchild")
 }
 
 var trieNodeTypes = []string{"LeafNode", "FullNode", "ExtensionNode"}
